@@ -44,6 +44,10 @@ pub struct KillCase {
     pub sc: Scenario,
     /// kill point (1-based) of the victim run (= step 1 of the scenario)
     pub k: u64,
+    /// the pre-state run used `dirty` (no cleanup), so headers of points that never succeeded
+    /// exist when the victim starts
+    #[serde(default)]
+    pub pre_dirty: bool,
 }
 
 #[derive(Clone, Copy, Debug, PartialEq, Eq)]
@@ -223,6 +227,7 @@ struct Prepared {
     ta_certs: BTreeMap<usize, Vec<u8>>,
     pre_model: ModelState,
     labels: Vec<String>,
+    pre_dirty: bool,
 }
 
 fn paths_for(p: &Prepared, dir: &Path) -> WorldPaths {
@@ -252,7 +257,7 @@ fn cli_codes(bin: &Path, cfg: &Cfg, template: &WorldPaths, cache: &Path, dir: &P
     Ok(res)
 }
 
-fn prepare(sc: &Scenario, roles: Vec<String>, bin: &Path) -> Result<Prepared, String> {
+fn prepare(sc: &Scenario, roles: Vec<String>, bin: &Path, pre_dirty: bool) -> Result<Prepared, String> {
     let mut world = World::new(sc, scratch_base());
     let base = world.dir.path().join("crash");
     std::fs::create_dir_all(&base).map_err(|e| e.to_string())?;
@@ -260,13 +265,13 @@ fn prepare(sc: &Scenario, roles: Vec<String>, bin: &Path) -> Result<Prepared, St
     // pre-state
     let mut model = ModelState::default();
     world.publish(&sc.steps[0]);
-    let exp0 = model_step(sc, &sc.steps[0], &mut model);
-    // start shortly before a second boundary: the header of a point that never succeeded survives
-    // cleanup only if the attempt falls into a later second than the start of the run, and the
-    // victim can take the "last attempt" re-write path only if the header survived
-    let sub = std::time::SystemTime::now().duration_since(std::time::UNIX_EPOCH).map(|d| d.subsec_millis()).unwrap_or(0);
-    std::thread::sleep(Duration::from_millis(((1900 - sub as u64) % 1000) as u64));
-    let out0 = world.run(false, &ex).map_err(|e| format!("pre-state run: {}", e))?;
+    let mut sc0 = sc.clone();
+    sc0.cfg.dirty = pre_dirty;
+    let exp0 = model_step(&sc0, &sc.steps[0], &mut model);
+    // without cleanup (`dirty`) the header of a point that never succeeded is still there when the
+    // victim starts, so the victim takes the "last attempt" re-write path; with cleanup it mostly is
+    // removed (retain compares a whole-second time stamp with the start of the run)
+    let out0 = world.run_with(false, &ex, |c| c.dirty_repository = pre_dirty).map_err(|e| format!("pre-state run: {}", e))?;
     if out0.payload != exp0.payload {
         return Err("model_mismatch_pre_state".into());
     }
@@ -298,6 +303,7 @@ fn prepare(sc: &Scenario, roles: Vec<String>, bin: &Path) -> Result<Prepared, St
         ta_certs,
         pre_model,
         labels: vec![],
+        pre_dirty,
         _world: world,
     };
     // uninterrupted reference = pass 0 of the victim (counts the kill points)
@@ -582,7 +588,7 @@ fn evaluate(ctx: &Ctx, rep: &mut Report, p: &Prepared, points: &[u64], skip_know
         if std::env::var_os("RV_DEBUG").is_some() {
             eprintln!("C23 debug: k={} label={} killed={} dropped={:?} excluded={:?} classes={:?} failures={:?}", k, o.label, o.killed, o.dropped, o.excluded, o.info.classes, o.failures.iter().map(|f| &f.0).collect::<Vec<_>>());
         }
-        let case = Tagged { sub: "kill".to_string(), case: KillCase { sc: p.sc.clone(), k: *k } };
+        let case = Tagged { sub: "kill".to_string(), case: KillCase { sc: p.sc.clone(), k: *k, pre_dirty: p.pre_dirty } };
         for key in &o.excluded {
             rep.exclude_known(key);
         }
@@ -639,7 +645,7 @@ pub fn run(ctx: &Ctx, rep: &mut Report, replay: Option<&serde_json::Value>) {
     if let Some(v) = replay {
         let t: Tagged<KillCase> = serde_json::from_value(v.clone()).expect("replay");
         let roles = vec!["replay".to_string()];
-        match prepare(&t.case.sc, roles, &bin) {
+        match prepare(&t.case.sc, roles, &bin, t.case.pre_dirty) {
             Ok(p) => evaluate(ctx, rep, &p, &[t.case.k], false, &mut tally),
             Err(e) => {
                 eprintln!("C23 replay: cannot prepare the scenario: {}", e);
@@ -655,7 +661,8 @@ pub fn run(ctx: &Ctx, rep: &mut Report, replay: Option<&serde_json::Value>) {
     for (n, g) in genomes.iter().enumerate() {
         // scenario 0 of every run has the covering shape (every role once); the others are free
         let (sc, roles) = if n == 0 { scenario_with(g, Some(&COVERING)) } else { scenario(g) };
-        let p = match prepare(&sc, roles, &bin) {
+        let pre_dirty = n % 2 == 0;
+        let p = match prepare(&sc, roles, &bin, pre_dirty) {
             Ok(p) => p,
             Err(e) if e.starts_with("model_mismatch") || e.starts_with("watchdog") => {
                 *rep.dropped.entry(format!("scenario:{}", e)).or_default() += 1;
@@ -673,7 +680,7 @@ pub fn run(ctx: &Ctx, rep: &mut Report, replay: Option<&serde_json::Value>) {
         }
         evaluate(ctx, rep, &p, &points, !ctx.strict, &mut tally);
         eprintln!("C23: scenario {} ({} CAs, {} kill points, {} explored): prepared at {:.1}s, evaluated at {:.1}s", n, sc.cas.len(), p.labels.len(), points.len(), t_prep, ctx.start.elapsed().as_secs_f64());
-        per_scenario.push(json!({"cas": sc.cas.len(), "roles": p.roles, "kill_points": p.labels.len(), "explored": points.len()}));
+        per_scenario.push(json!({"cas": sc.cas.len(), "roles": p.roles, "kill_points": p.labels.len(), "explored": points.len(), "pre_state_run_dirty": pre_dirty}));
         if rep.violated() {
             break;
         }
@@ -693,7 +700,7 @@ pub fn run(ctx: &Ctx, rep: &mut Report, replay: Option<&serde_json::Value>) {
     }
     // directed representatives of the known shapes, every run
     let (sc, roles) = directed_scenario();
-    match prepare(&sc, roles, &bin) {
+    match prepare(&sc, roles, &bin, false) {
         Ok(p) => {
             let mut points = Vec::new();
             if let Some(i) = p.labels.iter().position(|l| l == "store.status.created") {
